@@ -10,7 +10,7 @@ def unit_big(a):
     import importlib
     mod = importlib.import_module("checks." + a["module"])
     stats = Stats()
-    docs = noisy.big_documents(a["thorough"])
+    docs = noisy.big_documents(a["thorough"]) + noisy.length_boundary_documents(a["thorough"])
     cases = [dict({"sub": a["sub"], "text": t, "label": "magnitude:" + n}, **a.get("extra", {})) for i, (n, t) in enumerate(docs) if i % a["nshards"] == a["shard"]]
     sweep(stats, cases, getattr(mod, a["oracle"]))
     return stats
